@@ -5,7 +5,7 @@ import glob
 import importlib
 import os
 
-from .common import ROOT
+from .common import ROOT, match_only
 from . import krun
 
 
@@ -21,7 +21,7 @@ def harnesses(prop: str, tier: str, only: str | None = None, modules: list[str] 
                 continue
             if tier == "quick" and h.get("tier", "quick") != "quick":
                 continue
-            if only and only not in h["fn"]:
+            if only and not match_only(only, h["fn"]):
                 continue
             out.append(h)
     return out
